@@ -1,6 +1,7 @@
 package main
 
 import (
+	"go/token"
 	"fmt"
 	"go/types"
 	"strings"
@@ -14,6 +15,12 @@ func (p *Path) lookupSpec(cc *ssa.CallCommon) (spec *FuncSpec, callee *ssa.Funct
 	if cc.IsInvoke() {
 		rt := cc.Value.Type()
 		key := "iface:" + qualTypeName(rt) + "." + cc.Method.Name()
+		if specs.Funcs[key] == nil {
+			// anonymous interface types (interface{ Unwrap() error }): contract by method name
+			if alt := "iface:any." + cc.Method.Name(); specs.Funcs[alt] != nil {
+				return specs.Funcs[alt], nil, nil, alt
+			}
+		}
 		return specs.Funcs[key], nil, nil, key
 	}
 	switch v := cc.Value.(type) {
@@ -282,7 +289,8 @@ func (p *Path) applySpec(in ssa.Instruction, site string, spec *FuncSpec, what s
 				mod = "(or " + strings.Join(ds, " ") + ")"
 			}
 			if strings.HasPrefix(hn, "Mem_") {
-				p.assume(fmt.Sprintf("(forall ((a Ref)) (! (=> (and (<= (stamp a) %s) (not %s)) (= (select %s a) (select %s a))) :pattern ((select %s a))))", oldNow, mod, newH, oldH, newH))
+				// marker ghost fields outside the modifies clause keep their value on objects the callee allocated, too
+				p.assume(fmt.Sprintf("(forall ((a Ref)) (! (=> (and (or (<= (stamp a) %s) (>= (ftag a) 2000000)) (not %s)) (= (select %s a) (select %s a))) :pattern ((select %s a))))", oldNow, mod, newH, oldH, newH))
 			} else {
 				p.assume(fmt.Sprintf("(forall ((a Ref)) (! (=> (and (<= (stamp a) %s) (not %s)) (= (select %s a) (select %s a))) :pattern ((select %s a))))", oldNow, mod, newH, oldH, newH))
 			}
@@ -357,6 +365,7 @@ func (p *Path) applySpec(in ssa.Instruction, site string, spec *FuncSpec, what s
 	for _, e := range spec.allEnsures() {
 		p.assumeClause(c2, e, "ensures of "+what)
 	}
+
 	// dynamic dispatch refinement: if the receiver's dynamic type is a repo type whose method is under contract,
 	// that (verified) contract holds as well
 	if strings.HasPrefix(what, "iface:") && len(args) > 0 {
@@ -547,6 +556,69 @@ func isStackCell(a *ssa.Alloc) bool {
 	return ok(a, 0)
 }
 
+// writeOnceStore: the local cell a (a variable captured by closures) is assigned exactly once in its function and is
+// otherwise only read: by loads, and by closures that capture it and themselves only read it. Returns that store.
+func writeOnceStore(a *ssa.Alloc) *ssa.Store {
+	var st *ssa.Store
+	var readOnly func(v ssa.Value, depth int) bool
+	readOnly = func(v ssa.Value, depth int) bool {
+		if depth > 4 || v.Referrers() == nil {
+			return false
+		}
+		for _, r := range *v.Referrers() {
+			switch u := r.(type) {
+			case *ssa.DebugRef:
+			case *ssa.UnOp:
+				if u.Op != token.MUL {
+					return false
+				}
+			case *ssa.Store:
+				if u.Val == v || depth > 0 || st != nil {
+					return false
+				}
+				st = u
+			case *ssa.MakeClosure:
+				cf, ok := u.Fn.(*ssa.Function)
+				if !ok {
+					return false
+				}
+				for i, b := range u.Bindings {
+					if b == v && !readOnly(cf.FreeVars[i], depth+1) {
+						return false
+					}
+				}
+			default:
+				return false
+			}
+		}
+		return true
+	}
+	if !readOnly(a, 0) || st == nil {
+		return nil
+	}
+	// the assignment is not inside a loop (it runs at most once per activation)
+	seen := map[*ssa.BasicBlock]bool{}
+	var reach func(b *ssa.BasicBlock) bool
+	reach = func(b *ssa.BasicBlock) bool {
+		for _, s := range b.Succs {
+			if s == st.Block() {
+				return true
+			}
+			if !seen[s] {
+				seen[s] = true
+				if reach(s) {
+					return true
+				}
+			}
+		}
+		return false
+	}
+	if reach(st.Block()) {
+		return nil
+	}
+	return st
+}
+
 // allocEscapes: the address of a local is used other than as the direct target of loads and stores.
 func allocEscapes(a *ssa.Alloc) bool {
 	for _, r := range *a.Referrers() {
@@ -580,11 +652,23 @@ func (p *Path) siteGhosts(in ssa.Instruction, when string) {
 	if i := strings.LastIndex(site, "#"); i >= 0 {
 		fmt.Sscanf(site[i+1:], "%d", &ord)
 	}
+	argVars := map[string]Val{}
+	{
+		cc := ci.Common()
+		k := 0
+		if cc.IsInvoke() {
+			argVars["arg0"] = p.val(cc.Value)
+			k = 1
+		}
+		for i, a := range cc.Args {
+			argVars[fmt.Sprintf("arg%d", i+k)] = p.val(a)
+		}
+	}
 	for _, g := range fx.spec.Ghosts {
 		if g.When != when || g.Callee != short || (g.Ord != 0 && g.Ord != ord) {
 			continue
 		}
-		c := p.specCtx()
+		c := p.specCtx().with(argVars)
 		switch g.Kind {
 		case "set":
 			a, t, ok := c.tryAddr(g.Target)
@@ -678,8 +762,9 @@ func (p *Path) builtin(in ssa.Instruction, b *ssa.Builtin, cc *ssa.CallCommon) V
 					return a
 				}
 				a := wrap(fmt.Sprintf("(idx %s k)", l.Addr))
-				f := fmt.Sprintf("(=> (<= (+ (sl.len %s) %s) (sl.cap %s)) (or (> (stamp (sl.arr %s)) now_0) (forall ((k Int)) (=> (and (<= %s k) (< k %s)) %s))))",
-					s.T, n, s.T, s.T, lo, hi, p.modCond(l.Heap, a))
+				own := p.ownedAt(a)
+				f := fmt.Sprintf("(=> (<= (+ (sl.len %s) %s) (sl.cap %s)) (or (> (stamp (sl.arr %s)) now_0) (forall ((k Int)) (=> (and (<= %s k) (< k %s)) (or %s %s)))))",
+					s.T, n, s.T, s.T, lo, hi, p.modCond(l.Heap, a), own)
 				p.oblige("frame", site, "in-place append writes fresh memory or stays within the modifies clause", f)
 			}
 		}
@@ -872,6 +957,20 @@ func (p *Path) poolCall(in ssa.Instruction, cc *ssa.CallCommon, method string) (
 		} else {
 			p.assume(t)
 		}
+		// the caller owns the item exclusively until Put: the item's cell and, for a buffer item, its backing array
+		// it belongs to the pool's population, which ordinary data structures are separate from (their invariants
+		// say !pooled(..)); pooled is only ever assumed here, nothing sets it
+		pf := env.fieldFnNamed("gfld_any_pooled")
+		bh := p.heap(env.memHeap(tBool))
+		p.assume(fmt.Sprintf("(select %s (%s %s))", bh, pf, item))
+		p.setOwned(item, "true")
+		if pt, ok := it.Underlying().(*types.Pointer); ok {
+			if _, isSl := pt.Elem().Underlying().(*types.Slice); isSl {
+				arr := fmt.Sprintf("(sl.arr (select %s %s))", p.heap(env.memHeap(pt.Elem())), item)
+				p.assume(fmt.Sprintf("(or (= %s nil) (select %s (%s %s)))", arr, bh, pf, arr))
+				p.setOwned(arr, "true")
+			}
+		}
 		p.siteGhosts(in, "after")
 		return Val{T: fmt.Sprintf("(%s %s)", env.mkIfaceFn(it), item), Ty: in.(ssa.Value).Type()}, true
 	}
@@ -885,6 +984,7 @@ func (p *Path) poolCall(in ssa.Instruction, cc *ssa.CallCommon, method string) (
 	} else {
 		p.oblige("pool.inv", site, "pool invariant holds for the item returned to the pool: "+inv.Src, t)
 	}
+	p.setOwned("(iface_ref "+x.T+")", "false")
 	p.siteGhosts(in, "after")
 	return Val{}, true
 }
@@ -996,6 +1096,23 @@ func (p *Path) iteratorCall(in ssa.Instruction, site, param string, names []stri
 		locs = append(locs, ls...)
 	}
 	p.frameCheck(site, locs)
+	// `ensures trans.*` clauses of the callback are reflexive-transitive two-state relations (transitivity is proved
+	// on the callback, reflexivity here), so they hold between the states before and after any number of calls
+	pre := p.st.clone()
+	for _, e := range cs.Ensures {
+		if !strings.HasPrefix(e.Label, "trans") {
+			continue
+		}
+		cr := mk()
+		cr.st = &pre
+		cr.old = &pre
+		t, err := cr.EvalBool(e.E)
+		if err != nil {
+			p.specError("iterator relation of "+key, e, err)
+			continue
+		}
+		p.oblige("iter.refl."+e.Label, site, "reflexive: "+e.Src, t)
+	}
 	oldNow := p.st.now
 	nn := p.fx.fresh("now")
 	p.declare(nn, "Int")
@@ -1031,6 +1148,13 @@ func (p *Path) iteratorCall(in ssa.Instruction, site, param string, names []stri
 	c2 := mk()
 	for _, inv := range cs.FnInvs {
 		p.assumeClause(c2, inv, "iterator invariant of "+key)
+	}
+	for _, e := range cs.Ensures {
+		if strings.HasPrefix(e.Label, "trans") {
+			c3 := mk()
+			c3.old = &pre
+			p.assumeClause(c3, e, "iterator relation of "+key)
+		}
 	}
 	env.assumptions["iterator rule: "+shortKey(key)+" is called any number of times; its invariants are preserved (verified on the closure)"] = true
 }
